@@ -399,6 +399,7 @@ pub struct XmlAttribute {
     prefix: Option<String>,
     values: Singleton<Vec<XmlAttributeValue>>,
     from_dtd: bool,
+    declared_type: Option<XmlDeclarationAttType>,
     parent_id: Option<usize>,
     context: Context,
 }
@@ -685,6 +686,7 @@ impl XmlAttribute {
             prefix,
             values: singleton(vec![]),
             from_dtd: false,
+            declared_type: None,
             parent_id,
             context: context.next(),
         });
@@ -707,6 +709,7 @@ impl XmlAttribute {
             prefix: value.prefix().map(|v| v.to_string()),
             values: singleton(vec![]),
             from_dtd: true,
+            declared_type: Some(value.ty.clone()),
             parent_id: None,
             context: context.zero(),
         });
@@ -772,6 +775,12 @@ impl XmlAttribute {
     }
 
     fn declaration_type(&self) -> Option<XmlDeclarationAttType> {
+        if self.from_dtd {
+            // An attribute supplied by a default has no owner element to look the
+            // definition up from: its type is the one of the definition that supplied it.
+            return self.declared_type.clone();
+        }
+
         Some(self.declaration_def()?.ty)
     }
 
